@@ -18,7 +18,7 @@ KEYS = """Hamiltonian Hamiltonian_Escale Hamiltonian_norm Momentumup3 Momentumdo
  dtKtrace dtphi_bssnok dtgammaup3 dtgammadown3_bssnok dtAdown3_bssnok dts_Gamma_bssnok
  psi_bssnok phi_bssnok gammadown3_bssnok gammaup3_bssnok Adown3 Aup3 Adown3_bssnok Aup3_bssnok
  A2 A2_bssnok Ktrace Kup3 DDalpha s_Gamma_bssnok s_Gamma_udd3_bssnok s_RicciS gammaup4
- nup4""".split()
+ nup4 s_Ricci_down3 s_Riemann_uddd3 s_Riemann_down3""".split()
 
 
 def run(rep):
